@@ -437,6 +437,13 @@ def register_update(chk, upd, consts):
         return
     chk.expect(idx_ok, 'C14.3c', 'R15', upd.site(st), ast.unparse(st.targets[0]), 'bucket = low p bits of the digest, in [0, m)', f'the register index must be x & (m-1); found {show(idx)[:100]}')
     rho = 'self.width - (x >> self.p).bit_length()'
+    m_is_2p_ = consts.get('m') is not None and consts.get('p') is not None and consts.get('m') == 2 ** consts.get('p')
+    if m_is_2p_:
+        # with m == 2**p, x // m is x >> p (and x % m is x & (m - 1)) for the non-negative digest
+        rho_div = 'self.width - (x // self.m).bit_length()'
+        alt = [E(f'max(self.M[x % self.m], {rho_div})'), E(f'max({rho_div}, self.M[x % self.m])'), E(f'max(self.M[x & (self.m - 1)], {rho_div})'), E(f'numpy.maximum(self.M[x % self.m], {rho_div})')]
+        if val in alt:
+            val = E(f'max(self.M[x & (self.m - 1)], {rho})')
     val_ok = val in (E(f'max(self.M[x & (self.m - 1)], {rho})'), E(f'max({rho}, self.M[x & (self.m - 1)])'), E(f'max(self.M[x % self.m], {rho})'),
                      E(f'numpy.maximum(self.M[x & (self.m - 1)], {rho})'))
     if not val_ok:
@@ -553,6 +560,15 @@ def estimator(chk, ln, consts):
         saturation = t[0] in ('num', '**', '<<') or (t[0] == 'call' and t[1] == ('name', 'int')) or (t == E('self.m') and m_is_2p)
         # the saturation fallback is only reachable through a test of the estimate against infinity
         if saturation and any('inf' in ast.unparse(x).lower() for x, _ in res.assumed):
+            continue
+        occ = [E(z) for z in ('numpy.count_nonzero(self.M)', 'int(numpy.count_nonzero(self.M))', 'numpy.count_nonzero(self.M != 0)', 'numpy.sum(self.M != 0)', 'numpy.count_nonzero(self.M > 0)', 'len(numpy.nonzero(self.M)[0])',
+                                    'len(numpy.flatnonzero(self.M))')]
+        occ_src = ('numpy.count_nonzero(self.M)', 'int(numpy.count_nonzero(self.M))', 'numpy.count_nonzero(self.M != 0)', 'numpy.sum(self.M != 0)', 'numpy.count_nonzero(self.M > 0)', 'len(numpy.nonzero(self.M)[0])',
+                   'len(numpy.flatnonzero(self.M))')
+        occ_logs = [E(f'numpy.log(self.m / {z})') for z in occ_src] + [E(f'numpy.log(numpy.divide(self.m, {z}))') for z in occ_src]
+        if any(o_ in list(walk_term(t)) for o_ in occ_logs):
+            chk.bad('C14.4b', 'R15', site, shown, 'the linear-counting estimate m*ln(m/V) is computed with V = the number of OCCUPIED registers (count_nonzero(M)) instead of the number of empty ones: the estimate is '
+                    'far off as soon as the sketch has left the exact phase')
             continue
         other_log = [x for x in walk_term(t) if isinstance(x, tuple) and x[:1] == ('call',) and x[1][0] == 'lib' and x[1][1] in ('numpy.log2', 'numpy.log10', 'numpy.log1p', 'math.log2', 'math.log10', 'math.log1p')]
         if other_log:
